@@ -133,9 +133,31 @@ fn lattice_outline(r: &mut Rng) -> (Vec<P2>, &'static str) {
     let sh = if r.chance(0.3) { *r.pick(&[0.25, -0.5, 0.3]) } else { 0.0 };
     (c.iter().map(|p| (p.0 as f64 * sx + sh * p.1 as f64 * sy, p.1 as f64 * sy)).collect(), "lattice")
 }
+/// hole-free outlines with a reflex vertex O that is the centre of a circle through three other outline vertices (integer
+/// points on a circle, exact scalings): ear clipping produces a triangle whose circumcentre IS the mesh vertex O, so the
+/// circumcentre insertion of `refine` is a no-op (`add_point` returns Ok(false)) -- the path on which the per-pass "anything
+/// changed" flag must not be reset (seeded change C18-m1)
+fn cocircular_outline(r: &mut Rng) -> (Vec<P2>, &'static str) {
+    let circ: [&[(i32, i32)]; 3] = [
+        &[(4, 3), (3, 4), (0, 5), (-3, 4), (-4, 3)],
+        &[(12, 5), (5, 12), (0, 13), (-5, 12), (-12, 5)],
+        &[(24, 7), (20, 15), (15, 20), (7, 24), (0, 25), (-7, 24), (-15, 20), (-20, 15), (-24, 7)],
+    ];
+    let c = *r.pick(&circ);
+    // three points of the upper half circle, by decreasing index = increasing angle: right, top, left
+    let mut idx: Vec<usize> = vec![];
+    while idx.len() < 3 { let i = r.below(c.len() as u64) as usize; if !idx.contains(&i) { idx.push(i); } }
+    idx.sort();
+    let rad = ((c[0].0 * c[0].0 + c[0].1 * c[0].1) as f64).sqrt();
+    let s = *r.pick(&[0.125, 0.25, 0.5, 1.0]) * 5.0 / rad;
+    let q = (r.range(-0.3, 0.3) * rad, -r.range(0.8, 1.6) * rad);
+    let p = |i: usize| (c[idx[i]].0 as f64 * s, c[idx[i]].1 as f64 * s);
+    // counter-clockwise: left point, far point below, the centre O (reflex), right point, top point
+    (vec![p(2), (q.0 * s, q.1 * s), (0.0, 0.0), p(0), p(1)], "cocircular")
+}
 pub fn rand_polycase(r: &mut Rng, nmax: usize, max_holes: usize, size_cap: f64, offset: f64) -> PolyCase {
     let fr = Frame::random(r, offset);
-    let (mut poly, fam) = if r.chance(0.12) { lattice_outline(r) } else { simple_polygon(r, nmax) };
+    let (mut poly, fam) = if r.chance(0.12) { lattice_outline(r) } else if r.chance(0.08) { cocircular_outline(r) } else { simple_polygon(r, nmax) };
     // rescale when a size cap is requested (refinement streams)
     let ext = poly.iter().fold(0.0f64, |m, p| m.max(p.0.abs()).max(p.1.abs()));
     if ext > size_cap { let s = size_cap / ext; poly = poly.iter().map(|p| (p.0 * s, p.1 * s)).collect(); }
@@ -288,8 +310,47 @@ pub fn run_rf(seed: u64, n: usize, out: &str, salt: u64, extra: &[String]) {
         let pc = rand_polycase(&mut r, nm, 2, size_cap, 100.0);
         let area = { let a = area2(&pc.outer2).abs(); let h: f64 = pc.holes2.iter().map(|h| area2(h).abs()).sum(); a - h };
         let k = (2.0f64).powf(r.range(0.0, kmax.log2()));
-        let max_area = (area / k) as Float;
-        let max_ar = if r.chance(0.15) { *r.pick(&[0.8, 1.0, 10.0]) } else { r.range(0.8, 10.0) } as Float;
+        let mut max_area = (area / k) as Float;
+        let mut max_ar = if r.chance(0.15) { *r.pick(&[0.8, 1.0, 10.0]) } else { r.range(0.8, 10.0) } as Float;
+        // decision-boundary band: a bound within a relative 1e-3 .. 1e-9 of the aspect ratio (or the area) of one of the
+        // triangles of the unrefined mesh, on either side, so that a tolerance slipped into `ratio > max` / `area > max`
+        // decides differently (seeded change C18-m2); the coarse max_area keeps that triangle from being split for its area
+        if r.chance(0.3) {
+            if let Ok(p) = build_polygon(&pc.outer, &pc.holes) {
+                if let Ok(Ok(t)) = catch(AssertUnwindSafe(|| Triangulation3D::from_polygon(&p))) {
+                    let tl = t.get_trilist();
+                    if !tl.is_empty() {
+                        let tr = tl[r.below(tl.len() as u64) as usize];
+                        let d = *r.pick(&[1e-3, 3e-4, 1e-5, 1e-7, 1e-9]) * if r.chance(0.6) { -1.0 } else { 1.0 };
+                        if r.chance(0.75) {
+                            let ar = tr.aspect_ratio() as f64;
+                            if ar.is_finite() && ar >= 0.8 && ar <= 10.0 { max_ar = (ar * (1.0 + d)) as Float; max_area = (area * 4.0) as Float; }
+                        } else {
+                            let a = tr.area() as f64;
+                            if a.is_finite() && a > 0.0 { max_area = (a * (1.0 + d)) as Float; }
+                        }
+                    }
+                }
+            }
+        }
+        // aimed parameters for outlines in which an unrefined triangle T has its circumcentre ON a polygon vertex (the
+        // "cocircular" family): T oversized (so refine tries the circumcentre, a no-op) but within the ratio bound, while
+        // another triangle violates the bound -- the pass must still report "changed" (seeded change C18-m1)
+        if r.chance(0.8) {
+            if let Ok(p) = build_polygon(&pc.outer, &pc.holes) {
+                if let Ok(Ok(t)) = catch(AssertUnwindSafe(|| Triangulation3D::from_polygon(&p))) {
+                    let tl = t.get_trilist();
+                    if let Some(k) = tl.iter().position(|tr| { let c = tr.circumcenter(); pc.outer.iter().any(|v| v.compare(c)) }) {
+                        let rt = tl[k].aspect_ratio() as f64;
+                        let rs = tl.iter().enumerate().filter(|(i, _)| *i != k).map(|(_, x)| x.aspect_ratio() as f64).fold(0.0f64, f64::max);
+                        if rt.is_finite() && rs.is_finite() && rs > rt * 1.1 && rt < 9.0 {
+                            max_ar = r.range(rt * 1.02, (rs * 0.97).min(10.0).max(rt * 1.05)) as Float;
+                            max_area = (tl[k].area() as f64 * r.range(0.3, 0.9)) as Float;
+                        }
+                    }
+                }
+            }
+        }
         rf_case(&pc, max_area, max_ar, model_limit, 60, &mut sink);
     }
     sink.flush();
